@@ -19,3 +19,4 @@ open RV.C18
 #print axioms code_two_wrappers_disjoint
 #print axioms graph_level_history_refines_spec
 #print axioms graph_level_ops_meaning
+#print axioms conjunctive_context_broke_rollback
